@@ -10,7 +10,7 @@ COQ_HEADER = "From Plotink Require Import Base.Prelude Corr.C01.\nOpen Scope Z_s
 COQ_RUN = "run01"
 COQ_CASE_TYPE = "case01"
 RULE = ("firmware-valid (rate, accel, T, accumulator|clear): families zero first-tick rate, domain edge (+-(2^31-1)), small, constant rate, uniform; "
-        "T in {1,2,3, small, up to 2^32-1}; accumulator clear / {0,1,2^31-1,..} / random; each case is run under a random ambient mpmath precision "
+        "arguments positional / by keyword, alone or right after the same move evaluated from another accumulator state; T in {1,2,3, small, up to 2^32-1}; accumulator clear / {0,1,2^31-1,..} / random; each case is run under a random ambient mpmath precision "
         "(dps 5/15/30/50 or prec 7) and through move_dist_lt, moveDistLMA or moveDistLM; non-trivial = T >= 2 and accel != 0")
 TRUSTED = ["mpmath at 30 digits and Python float division are exact on the firmware-valid domain (all intermediates are half-integers below 2^99): argued in DESIGN.md, sampled here"]
 ASSUMPTIONS = ["|rate_k| <= 2^31-1 for k = 1..T, 1 <= T < 2^32, accumulator in [0, 2^31) or clear"]
@@ -26,7 +26,14 @@ def generate(rng, tier):
         if entry == 2: acc = 0
         elif rng.random() < 0.15:
             acc = ebbgen.boundary_acc(rng, ebbgen.lt_total0(rate, accel, T)); fam += "/total-on-step-boundary"
-        cases.append({"entry": entry, "rate": rate, "accel": accel, "T": T, "acc": acc, "amb": rng.randrange(len(AMBIENT)), "family": fam})
+        c = {"entry": entry, "rate": rate, "accel": accel, "T": T, "acc": acc, "amb": rng.randrange(len(AMBIENT)), "family": fam}
+        r = rng.random()
+        if r < 0.12 and entry != 2:
+            # the same move was evaluated a moment ago from another accumulator state (arguments by keyword or not): results must not be mixed up
+            c["pre"] = [ebbgen.sibling_acc(rng, acc) for _ in range(rng.choice([1, 1, 2]))]; c["kw"] = rng.choice([0, 1, 1, 2]); c["family"] += "/after-sibling-call"
+        elif r < 0.22 and entry != 2:
+            c["kw"] = rng.choice([1, 2]); c["family"] += "/keyword-arguments"
+        cases.append(c)
     return cases
 
 def _clear(c):
@@ -34,15 +41,22 @@ def _clear(c):
     command line passes: equal to "clear" but a different object)"""
     return "clear" if (c["rate"] + c["accel"]) % 2 else "".join(("cle", "ar"))
 
+def _once(c, acc_v, kw):
+    acc = _clear(c) if acc_v is None else acc_v
+    if c["entry"] == 0 and acc_v is None and c["T"] % 3 == 0 and kw != 1: return ebbgen.call(ebb_calc.move_dist_lt, (c["rate"], c["accel"], c["T"]), kw)      # argument omitted: the documented default is "clear"
+    if c["entry"] == 0: return ebbgen.call(ebb_calc.move_dist_lt, (c["rate"], c["accel"], c["T"], acc), kw)
+    if c["entry"] == 1: return ebbgen.call(ebb_motion.moveDistLMA, (c["rate"], c["accel"], c["T"], acc), kw)
+    return ebbgen.call(ebb_motion.moveDistLM, (c["rate"], c["accel"], c["T"]), 2 if kw else 0), 0
+
 def run_impl(c):
     k, v = AMBIENT[c["amb"]]
-    setattr(mpmath.mp, k, v)
-    acc = _clear(c) if c["acc"] is None else c["acc"]
+    kw = c.get("kw", 0)
     try:
-        if c["entry"] == 0 and c["acc"] is None and c["T"] % 3 == 0: p, a = ebb_calc.move_dist_lt(c["rate"], c["accel"], c["T"])      # argument omitted: the documented default is "clear"
-        elif c["entry"] == 0: p, a = ebb_calc.move_dist_lt(c["rate"], c["accel"], c["T"], acc)
-        elif c["entry"] == 1: p, a = ebb_motion.moveDistLMA(c["rate"], c["accel"], c["T"], acc)
-        else: p, a = ebb_motion.moveDistLM(c["rate"], c["accel"], c["T"]), 0
+        for a0 in c.get("pre", []):
+            setattr(mpmath.mp, k, v)
+            _once(c, a0, kw)
+        setattr(mpmath.mp, k, v)
+        p, a = _once(c, c["acc"], kw)
     finally:
         mpmath.mp.dps = 15
     return {"pos": int(p), "acc": int(a)}
